@@ -392,6 +392,7 @@ func RunOps(ops []string) []string {
 	defer func() {
 		if h != nil {
 			h.Close()
+			h.Cleanup()
 		}
 	}()
 	out := make([]string, len(ops))
@@ -400,6 +401,7 @@ func RunOps(ops []string) []string {
 		if f[0] == "reset" {
 			if h != nil {
 				h.Close()
+				h.Cleanup()
 				os.RemoveAll(dir)
 				os.MkdirAll(dir, 0o755)
 			}
